@@ -329,7 +329,7 @@ def run(ck):
             ck.violation("C09/correspondence/%s" % h[k][0], "model and implementation differ at step %d (%s): impl=%s | model=%s" % (k, h[k][0], sa[k][-400:], sb[k][-400:]),
                          {"kind": "history", "ops": json.loads(json.dumps(h, default=str))}, found_input=False)
     gate_eq_oracle(ck)
-    clifford_oracle(ck)
+    clifford_oracle(ck, tables_ok)
     threshold_oracle(ck)
 
 
@@ -358,24 +358,59 @@ def gate_eq_oracle(ck):
                          {"kind": "gate_eq", "g1": spec, "g2": s2})
 
 
-def clifford_oracle(ck):
+def clifford_oracle(ck, tables_ok=True):
+    """decompose_gate_to_cliffords at k*pi/2 for a wide range of k (small, large, negative), exactly and with
+    float noise well inside the documented tolerance: (a) the property itself with numpy (same unitary up to
+    phase, only Clifford gates), (b) for exact multiples the Clifford word equals the one the Coq model
+    decompose_rot selects from the regenerated tables.  A refusal (ValueError) outside k=-8..8 is not a wrong
+    decomposition and is only tagged."""
     from tangelo.linq import Gate
     from tangelo.linq.helpers.circuits.clifford_circuits import decompose_gate_to_cliffords
-    ck.stream("clifford", "every rotation gate x every angle k*pi/2 (k=-8..8): decomposition vs rotation, numpy unitaries up to phase")
+    rng = ck.rng
+    ck.stream("clifford", "every rotation gate x angles k*pi/2 + eps (k=-40..40 and random |k| up to 10^6; eps in 0, +/-1e-9, +/-1e-7, "
+              "accumulated float sums): decomposition vs rotation, numpy unitaries up to phase; exact multiples also against the Coq "
+              "model of the selection (decompose_rot); non-trivial = k not a multiple of 4")
+    ks = list(range(-40, 41)) + [rng.choice([-1, 1]) * rng.randint(41, 10**6) for _ in range(20 if ck.tier == "quick" else 300)]
+    exprs, expected = [], []
     for name in ["RX", "RY", "RZ", "PHASE"]:
-        for k in range(-8, 9):
-            g = Gate(name, 0, parameter=k * math.pi / 2)
-            try:
-                dec = decompose_gate_to_cliffords(g)
-            except Exception as e:
-                ck.violation("C09/clifford/raises", "%r: %s" % (g, e), {"kind": "clifford", "name": name, "k": k})
-                continue
-            dec = dec if isinstance(dec, list) else [dec]
-            d = NS.phase_distance(NS.unitary(NS.gates_of(dec), 1), NS.unitary(NS.gates_of([g]), 1))
-            ck.case("clifford", "%s:%d" % (name, k), nontrivial=k % 4 != 0, sample={"gate": name, "k_pi_2": k, "decomposition": [x.name for x in dec]}, tags=[name])
-            if d > TOL or not all(x.is_clifford() for x in dec):
-                ck.violation("C09/clifford/%s" % name, "%s(%d*pi/2) decomposes to %s: distance up to phase %.3g" % (name, k, [x.name for x in dec], d),
-                             {"kind": "clifford", "name": name, "k": k})
+        for k in ks:
+            variants = [("exact", k * math.pi / 2)]
+            if abs(k) <= 40:
+                variants += [("+1e-9", k * math.pi / 2 + 1e-9), ("-1e-9", k * math.pi / 2 - 1e-9),
+                             ("+1e-7", k * math.pi / 2 + 1e-7), ("-1e-7", k * math.pi / 2 - 1e-7),
+                             ("summed", sum([math.copysign(math.pi / 4, k)] * (2 * abs(k))))]
+            for tag, theta in variants:
+                g = Gate(name, 0, parameter=theta)
+                try:
+                    dec = decompose_gate_to_cliffords(g)
+                except ValueError as e:
+                    ck.case("clifford", "%s:%d:%s" % (name, k, tag), nontrivial=False, sample={"gate": name, "k_pi_2": k, "eps": tag, "refused": str(e)[:80]}, tags=["refused"])
+                    if abs(k) <= 8 and tag == "exact":
+                        ck.violation("C09/clifford/raises", "%r: %s" % (g, e), {"kind": "clifford", "name": name, "k": k, "theta": theta})
+                    continue
+                except Exception as e:
+                    ck.violation("C09/clifford/raises", "%r: %r" % (g, e), {"kind": "clifford", "name": name, "k": k, "theta": theta})
+                    continue
+                dec = dec if isinstance(dec, list) else [dec]
+                d = NS.phase_distance(NS.unitary(NS.gates_of(dec), 1), NS.unitary(NS.gates_of([g]), 1))
+                ck.case("clifford", "%s:%d:%s" % (name, k, tag), nontrivial=k % 4 != 0,
+                        sample={"gate": name, "k_pi_2": k, "eps": tag, "decomposition": [x.name for x in dec]}, tags=[name, tag])
+                tol = TOL if tag in ("exact", "summed") and abs(k) <= 40 else 1e-6
+                if d > tol or not all(x.is_clifford() for x in dec):
+                    ck.violation("C09/clifford/%s" % name, "%s(%d*pi/2 %s = %r) decomposes to %s: distance up to phase %.3g" % (name, k, tag, theta, [x.name for x in dec], d),
+                                 {"kind": "clifford", "name": name, "k": k, "theta": theta})
+                if tag == "exact":
+                    exprs.append('show_decomp (decompose_rot clifford_values clifford_table clifford_period clifford_step "%s" (%d)%%Z)' % (name, 4 * k))
+                    expected.append((name, k, "Some " + ".".join(x.name for x in dec)))
+    if tables_ok and exprs:
+        pre = ("From Coq Require Import String ZArith List.\nFrom Tangelo Require Import Linq.Clifford.\nFrom Gen Require Import CliffordTables.\n"
+               "Import ListNotations.\nOpen Scope string_scope.\n"
+               "Definition show_decomp (o : option (list string)) : string := match o with None => \"None\" | Some l => \"Some \" ++ String.concat \".\" l end.\n")
+        model = ck.coq_eval("clifford", pre, exprs, shard=400)
+        for (name, k, a), b in zip(expected, model):
+            if a != b:
+                ck.violation("C09/correspondence/clifford", "%s(%d*pi/2): implementation %s, model of the selection %s" % (name, k, a, b),
+                             {"kind": "clifford", "name": name, "k": k, "theta": k * math.pi / 2, "impl": a, "model": b}, found_input=False)
 
 
 def threshold_oracle(ck):
@@ -422,5 +457,18 @@ def replay(data):
         d = NS.phase_distance(NS.unitary(NS.gates_of([g1]), 3), NS.unitary(NS.gates_of([g2]), 3))
         print(repr(g1), "==", repr(g2), g1 == g2, "distance", d)
         return 1 if (g1 == g2 and d > TOL) else 0
+    if r.get("kind") == "clifford" and "theta" in r:
+        from tangelo.linq import Gate
+        from tangelo.linq.helpers.circuits.clifford_circuits import decompose_gate_to_cliffords
+        g = Gate(r["name"], 0, parameter=r["theta"])
+        try:
+            dec = decompose_gate_to_cliffords(g)
+        except Exception as e:
+            print(repr(g), "raises", repr(e))
+            return 1
+        dec = dec if isinstance(dec, list) else [dec]
+        d = NS.phase_distance(NS.unitary(NS.gates_of(dec), 1), NS.unitary(NS.gates_of([g]), 1))
+        print(repr(g), "->", [x.name for x in dec], "distance up to phase", d)
+        return 1 if d > 1e-6 else 0
     print(json.dumps(r, indent=1)[:3000])
     return 1
